@@ -103,6 +103,19 @@ def build_traces(rng, nconn, link="eth", nrich=0):
     for c in range(nconn, nconn + nrich):
         conns.append({kind: traffic.connection(rng, 300 + c, kind, nid)["frames"] for kind in ("tcp", "http", "tls")})
     nconn += nrich
+    if link == "raw" and nrich:
+        # one fixed connection of the recorded finding's input class (a client whose address begins 86 dd): the KNOWN-FINDING line is
+        # printed on every run, not only when the seeded styles happen to draw such an address
+        la, lb = (134, 221, 69, 54), (10, 2, 0, 2)
+        Rl = b"GET /lookalike HTTP/1.1\r\nHost: l.example\r\nUser-Agent: lookalike/1.0\r\n\r\n"
+        so = traffic.SYNOPTS[0](4242)
+        conns.append({"tcp": [traffic.pkt(4, la, lb, 50310, 80, 100, 0, 0x02, tcpopts=so, ipid=nid()), traffic.pkt(4, lb, la, 80, 50310, 900, 101, 0x12, tcpopts=so, ipid=nid())],
+                      # the option-less SYN is 40 octets long: too short to pass for Ethernet + IPv6, so the parser reads it as raw IP (flow opened),
+                      # while the hash, which decides on octets 12-13 alone, places it by a hash of the whole frame
+                      "http": [traffic.pkt(4, la, lb, 50310, 80, 100, 0, 0x02, ipid=nid()), traffic.pkt(4, lb, la, 80, 50310, 900, 101, 0x12, tcpopts=so, ipid=nid()),
+                               traffic.pkt(4, la, lb, 50310, 80, 101, 901, 0x18, Rl, ipid=nid()), traffic.pkt(4, lb, la, 80, 50310, 901, 101 + len(Rl), 0x18, b"HTTP/1.1 200 OK\r\nServer: lookalike-srv\r\n\r\nok", ipid=nid())],
+                      "tls": [traffic.pkt(4, la, lb, 50311, 443, 1, 1, 0x18, hello("lookalike.example")[:50], ipid=nid()), traffic.pkt(4, la, lb, 50311, 443, 51, 1, 0x18, hello("lookalike.example")[50:], ipid=nid())]})
+        nconn += 1
     for crate in traces:
         ptr = [0] * nconn
         order = []
